@@ -62,6 +62,59 @@ impl Seek for Flaky {
     }
 }
 
+/// Fault schedule of a stream source used in the MAIN flow (compared with the Lean model): the i-th rewind of the
+/// source after `arm()` is the i-th transfer attempt; its code (if any) says how it fails: 0 = the rewind itself
+/// (seek) fails -> `BlockEncoder::new` fails; >= 1 = the first read after the rewind fails.
+#[derive(Debug, Clone)]
+pub struct Schedule(Arc<(AtomicBool, AtomicU64, Vec<u64>, AtomicBool)>);
+
+impl Schedule {
+    pub fn new(codes: Vec<u64>) -> Schedule {
+        Schedule(Arc::new((AtomicBool::new(false), AtomicU64::new(0), codes, AtomicBool::new(false))))
+    }
+    pub fn arm(&self) {
+        self.0 .0.store(true, Ordering::SeqCst);
+    }
+}
+
+#[derive(Debug)]
+pub struct Scheduled {
+    inner: std::io::Cursor<Vec<u8>>,
+    s: Schedule,
+}
+
+impl Scheduled {
+    pub fn new(content: Vec<u8>, s: Schedule) -> Scheduled {
+        Scheduled { inner: std::io::Cursor::new(content), s }
+    }
+}
+
+impl Read for Scheduled {
+    fn read(&mut self, buf: &mut [u8]) -> std::io::Result<usize> {
+        let st = &self.s.0;
+        if st.0.load(Ordering::SeqCst) && st.3.swap(false, Ordering::SeqCst) {
+            return Err(std::io::Error::new(std::io::ErrorKind::Other, "injected read failure"));
+        }
+        self.inner.read(buf)
+    }
+}
+
+impl Seek for Scheduled {
+    fn seek(&mut self, pos: SeekFrom) -> std::io::Result<u64> {
+        let st = &self.s.0;
+        if st.0.load(Ordering::SeqCst) && pos == SeekFrom::Start(0) {
+            let i = st.1.fetch_add(1, Ordering::SeqCst) as usize;
+            st.3.store(false, Ordering::SeqCst);
+            match st.2.get(i) {
+                Some(0) => return Err(std::io::Error::new(std::io::ErrorKind::Other, "injected seek failure")),
+                Some(_) => st.3.store(true, Ordering::SeqCst),
+                None => {}
+            }
+        }
+        self.inner.seek(pos)
+    }
+}
+
 struct Rec(Mutex<Vec<(bool, u128)>>);
 impl Subscriber for Rec {
     fn on_sender_event(&self, evt: &Event, _now: SystemTime) {
